@@ -32,7 +32,9 @@ Weakest readings (the property text is silent; see also ``ASSUMPTIONS``):
 
   * century/millennium count from year 1 (PostgreSQL), decade = year // 10, weeks are ISO weeks.
   * weekday(d) is the English 3-letter abbreviation (the process runs in the C locale).
-  * root(a, n) only for n >= 1; parent() of a one-component name only must not raise.
+  * root(a, n) only for n >= 1; a one-component name has no parent: parent(a) is NULL or '' (which of the two is not
+    stated), leaf(a) = a; for every name a = parent(a) + ':' + leaf(a) when parent(a) is non-empty, a = leaf(a) otherwise.
+    Checked over columns, literals and nested calls (parent(root(a, 1)), parent(parent(a)), leaf(parent(a)) ...).
   * account_sortkey: the order of the *types* is beancount's (assets, liabilities, equity, income,
     expenses), read from the options of the ledger.
   * possign / neg / abs compare numerically (0 == -0; exponent not compared).
@@ -83,7 +85,7 @@ LO, HI = DATE(1900, 1, 1), DATE(2100, 12, 31)
 ASSUMPTIONS = [
     'century/millennium counted from year 1 (PostgreSQL convention), decade = year // 10, ISO weeks (Monday first)',
     'weekday(d) compared with the English abbreviations (process locale is C)',
-    'root(a, n) generated for n >= 1 only; parent() of a one-component name only must not raise',
+    "root(a, n) generated for n >= 1 only; parent() of a one-component name (and parent/leaf of the empty name reached by nesting) is NULL or '', which of the two is not stated",
     'account_sortkey type order = beancount account-types order taken from the ledger options (trusted)',
     'possign/neg/abs/safediv compared numerically (sign of zero and exponent are not compared)',
     'round: nearest multiple of 10^-digits, exact ties accept either neighbour; safediv(x, 0) = 0, quotient exact or within 1 ulp of 28 digits',
@@ -701,30 +703,106 @@ def sec_acct_root(acc, rows, params):
         acc.count('root_shortening' if r[1] < len(r[0].split(':')) else 'root_whole_name')
 
 
+def _comps(name):
+    return name.split(':') if name else []
+
+
+def no_parent():
+    return Pred(lambda got: None if got is None or (isinstance(got, str) and got == '') else "NULL or '' (a one-component name has no parent)")
+
+
+def parent_expect(name):
+    """parent of a (reference) name: all components but the last; a name of <= 1 component has none (NULL or '')."""
+    c = _comps(name)
+    return ':'.join(c[:-1]) if len(c) >= 2 else no_parent()
+
+
+def leaf_expect(name):
+    c = _comps(name)
+    return c[-1] if c else no_parent()       # leaf of the empty name: nothing (NULL or '')
+
+
+def _ref_parent(name):
+    return ':'.join(_comps(name)[:-1])
+
+
+def acct_part_specs(a):
+    """a: the operand expression (column or literal); expectation functions take the name."""
+    root1 = F('root', a, C(1))
+    return [
+        ('root', F('root', a), lambda n: _comps(n)[0]),
+        ('leaf', F('leaf', a), leaf_expect),
+        ('parent', F('parent', a), parent_expect),
+        # nested calls: a one-component operand that is itself computed
+        ('parent', F('parent', root1), lambda n: no_parent()),
+        ('leaf', F('leaf', root1), lambda n: _comps(n)[0]),
+        ('parent', F('parent', F('parent', a)), lambda n: parent_expect(_ref_parent(n))),
+        ('leaf', F('leaf', F('parent', a)), lambda n: leaf_expect(_ref_parent(n))),
+        ('root', F('root', F('parent', a)), lambda n: _comps(n)[0] if len(_comps(n)) >= 2 else no_parent()),
+    ]
+
+
+def decomposition_law(acc, section, params, row, name, lf, pa):
+    """For every name: a == parent(a) + ':' + leaf(a) when parent(a) is non-empty, a == leaf(a) when it is empty / NULL.
+    A failure whose cause is a cell already reported under 'parent' / 'leaf' keeps that fingerprint."""
+    if not (isinstance(lf, str) and (pa is None or isinstance(pa, str))):
+        return
+    pe, le = parent_expect(name), leaf_expect(name)
+    already = (pe.test(pa) is not None if pe.__class__ is Pred else pa != pe) or lf != le
+    rebuilt = lf if not pa else pa + ':' + lf
+    law(acc, rebuilt == name or already, 'parent:leaf',
+        f"parent({lit(name)}) = {lit(pa)}, leaf({lit(name)}) = {lit(lf)}: they rebuild {lit(rebuilt)}, not the name", section, params, [row])
+
+
+DEPENDS_ON_PARENT = (5, 6, 7)      # positions in acct_part_specs whose operand is parent(a) (position 2)
+
+
+def check_acct_row(acc, section, params, row, name, specs, cells):
+    """Compare the cells of one name; results computed FROM parent(a) are only attributed when parent(a) itself was right."""
+    ok_parent = True
+    for k, (sp, got) in enumerate(zip(specs, cells)):
+        if k in DEPENDS_ON_PARENT and not ok_parent:
+            acc.count('cells')
+            continue
+        ok = check_cell(acc, section, params, ['a'], row, sp, got, sp.expect(row))
+        if k == 2:
+            ok_parent = ok
+        if got is None:
+            acc.count('null_results')
+        elif isinstance(got, str):
+            note_outcome(acc, sp.fp, got)
+            if got != name:
+                acc.count('nontrivial_cells')
+    decomposition_law(acc, section, params, row, name, cells[1], cells[2])
+
+
 def sec_acct_parts(acc, rows, params):
-    """rows: (a,): root(a) (one component), parent, leaf, parent(a) + ':' + leaf(a) = a."""
+    """rows: (a,): root(a), parent, leaf and nested calls over a column; the decomposition law for every name."""
     rows = [tuple(r) for r in rows]
     factory = lambda: ledger_conn(params['config'])
-    a = col('a')
-    multi = [r for r in rows if ':' in r[0]]
-    single = [r for r in rows if ':' not in r[0]]
-    specs = [Spec(F('root', a), 'root', lambda r: r[0].split(':')[0]),
-             Spec(F('leaf', a), 'leaf', lambda r: r[0].split(':')[-1]),
-             Spec(F('parent', a), 'parent', lambda r: ':'.join(r[0].split(':')[:-1]))]
-    res = run_specs(acc, 'acct_parts', params, factory, [('a', str)], multi, specs)
-    for row, cells in zip(multi, res):
-        _, lf, pa = cells
-        if isinstance(lf, str) and isinstance(pa, str):
-            # the law of the property; a failure caused by a cell already reported under 'parent' / 'leaf' keeps that fingerprint
-            already = lf != specs[1].expect(row) or pa != specs[2].expect(row)
-            law(acc, pa + ':' + lf == row[0] or already, 'parent:leaf',
-                f"parent({lit(row[0])}) + ':' + leaf({lit(row[0])}) = {lit(pa + ':' + lf)}", 'acct_parts', params, [row])
-    if single:
-        anything = lambda r: Pred(lambda got: None if got is None or isinstance(got, str) else 'a string or NULL')
-        specs1 = [specs[0], specs[1], Spec(F('parent', a), 'parent', anything)]
-        run_specs(acc, 'acct_parts', params, factory, [('a', str)], single, specs1)
-    if multi:
-        acc.sample({'section': 'acct_parts', 'config': params['config'], 'row': multi[-1][0], 'cells': [lit(c) for c in res[-1]]}, limit=1)
+    specs = [Spec(e, fp, lambda r, f=f: f(r[0])) for fp, e, f in acct_part_specs(col('a'))]
+    if len(set(rows)) != len(rows):
+        raise AssertionError('harness: duplicate account names')
+    acc.count('argument_rows', len(rows))
+    res = evaluate(acc, factory, [('a', str)], rows, [sp.expr for sp in specs])
+    for row, cells in zip(rows, res):
+        check_acct_row(acc, 'acct_parts', params, row, row[0], specs, cells)
+        acc.count('parent_of_one_component_name' if ':' not in row[0] else 'parent_of_deeper_name')
+    if rows:
+        acc.sample({'section': 'acct_parts', 'config': params['config'], 'row': rows[-1][0], 'cells': [lit(c) for c in res[-1]]}, limit=1)
+
+
+def sec_acct_parts_const(acc, rows, params):
+    """rows: (a,): the same expressions with the name as a literal operand (constant folding path)."""
+    rows = [tuple(r) for r in rows]
+    factory = lambda: ledger_conn(params['config'])
+    acc.count('argument_rows', len(rows))
+    for row in rows:
+        name = row[0]
+        specs = [Spec(e, fp, lambda r, f=f: f(r[0])) for fp, e, f in acct_part_specs(C(name))]
+        cells = evaluate(acc, factory, [('z', int)], [(0,)], [sp.expr for sp in specs])[0]
+        check_acct_row(acc, 'acct_parts_const', params, row, name, specs, cells)
+        acc.count('parent_of_one_component_literal' if ':' not in name else 'parent_of_deeper_literal')
 
 
 def sec_acct_sort(acc, rows, params):
@@ -1398,7 +1476,7 @@ def sec_selftest(acc, rows, params):
 SECTIONS = {
     'selftest': sec_selftest, 'trunc': sec_trunc, 'parts': sec_parts, 'addsub': sec_addsub, 'pairs': sec_pairs,
     'bin_day': sec_bin_day, 'bin_month': sec_bin_month, 'interval': sec_interval, 'interval2': sec_interval2,
-    'acct_root': sec_acct_root, 'acct_parts': sec_acct_parts, 'acct_sort': sec_acct_sort, 'acct_possign': sec_acct_possign,
+    'acct_root': sec_acct_root, 'acct_parts': sec_acct_parts, 'acct_parts_const': sec_acct_parts_const, 'acct_sort': sec_acct_sort, 'acct_possign': sec_acct_possign,
     'str_basic': sec_str_basic, 'str_substr': sec_str_substr, 'str_split': sec_str_split, 'str_maxwidth': sec_str_maxwidth,
     'str_grep': sec_str_grep, 'str_subst': sec_str_subst, 'str_sets': sec_str_sets, 'str_findfirst': sec_str_findfirst,
     'num_unary': sec_num_unary, 'num_round': sec_num_round, 'num_safediv': sec_num_safediv,
@@ -1610,6 +1688,7 @@ def build_tasks(tier, seed):
         p = {'config': config}
         add(1, 'acct_root', p, 'g_acct_root', config, seed, ncomp)
         add(1, 'acct_parts', p, 'g_acct', config, seed, ncomp)
+        add(2, 'acct_parts_const', p, 'g_acct', config, seed, ncomp)
         add(1, 'acct_sort', p, 'g_acct', config, seed, ncomp)
         add(1, 'acct_possign', p, 'g_acct_possign', config, seed, ncomp)
     # --- strings ---------------------------------------------------------------------------------------
@@ -1713,7 +1792,7 @@ def run(ctx):
         'violating_cases': n['violating_cases'],
         'reference_selftest_comparisons': n['reference_selftest_comparisons'],
         'non_vacuity': {k: n[k] for k in sorted(n) if k.split('_')[0] in (
-            'trunc', 'addsub', 'bin', 'interval', 'interval2', 'root', 'sortkey', 'possign', 'substr', 'maxwidth', 'subst', 'findfirst',
+            'trunc', 'addsub', 'bin', 'interval', 'interval2', 'root', 'parent', 'sortkey', 'possign', 'substr', 'maxwidth', 'subst', 'findfirst',
             'round', 'safediv', 'cast') and '.' not in k},
         'bounds': {
             'dates': f'{LO}..{HI} complete ({HI.toordinal() - LO.toordinal() + 1} dates) for date_trunc (7 units), date_part (13 fields), '
